@@ -10,3 +10,4 @@ import Gomjml.Props.C17
 #print axioms Gomjml.Props.C17.C17_entities_move_no_line
 #print axioms Gomjml.Props.C17.C17_reported_line_is_input_line
 #print axioms Gomjml.Props.C17.C17_prepass_source
+#print axioms Gomjml.Props.C17.C17_error_value
